@@ -268,6 +268,13 @@ def gen_model(rng, foreign=True):
             "typedef struct UserContainerStats {\n    uintptr_t n;\n} UserContainerStats;\n",
             "enum UserMode\n#ifdef __cplusplus\n  : uint8_t\n#endif // __cplusplus\n {\n    UserMode_Fast,\n    UserMode_Slow,\n};\n#ifndef __cplusplus\ntypedef uint8_t UserMode;\n#endif // __cplusplus\n",
             "/**\n * A user documented type.\n */\ntypedef struct CGlueXUser {\n    double d;\n} CGlueXUser;\n",
+            # user types that look like vtables / containers / objects to a regular expression
+            "typedef struct UserOpsVtbl {\n    int32_t (*open)(const struct UserThing2 *cont, uint32_t flags);\n    void (*close)(struct UserThing2 *cont);\n} UserOpsVtbl;\n",
+            "typedef struct UserThing2 {\n    const struct UserOpsVtbl2 *vtbl;\n    uint64_t container;\n} UserThing2;\n",
+            "typedef struct UserSlot {\n    uint32_t ret_tmp;\n    uint8_t context;\n    void *instance;\n} UserSlot;\n",
+            "/**\n * CGlue vtable for trait Nothing (says a user's comment).\n */\ntypedef struct UserNote {\n    uint8_t n;\n} UserNote;\n",
+            "typedef int32_t (*UserCallbackFn)(void *context, const uint8_t *data, uintptr_t len);\n",
+            "#define USER_LIMIT 16\n",
         ]
         for txt in rng.sample(pool, rng.randint(0, 5)):
             m.foreign.append((rng.random(), txt))
@@ -767,6 +774,10 @@ FOREIGN_POOL_CPP = [
     "/**\n * A user documented type.\n */\nstruct CGlueXUser {\n    double d;\n};\n",
     "template<typename T>\nstruct UserWrap {\n    T *p;\n    uintptr_t n;\n};\n",
     "constexpr static const uint32_t USER_LIMIT = 16;\n",
+    "struct UserOps;\n\nstruct UserOpsVtbl {\n    int32_t (*open)(const UserOps *cont, uint32_t flags);\n    void (*close)(UserOps *cont);\n};\n",
+    "template<typename CGlueC>\nstruct UserGenericVtbl {\n    uint32_t (*get)(const CGlueC *cont);\n};\n",
+    "struct UserSlot {\n    uint32_t ret_tmp;\n    uint8_t context;\n    void *instance;\n};\n",
+    "using UserCallbackFn = int32_t(*)(void *context, const uint8_t *data, uintptr_t len);\n",
 ]
 
 
